@@ -214,7 +214,10 @@ def run_roca(ctx, spec):
       what = 'random'
     if n.bit_length() < 64:
       continue
-    key = gen.rsa_key(n)
+    # the criteria depend on the modulus only: any exponent, any encoding
+    e = rng.choice([65537, 65537, 3, 17, 65539, 2 ** 32 + 1, 1, 0])
+    key = gen.rsa_key(n, e, pad=rng.choice([0, 0, 1, 4]))
+    ctx.count('roca_keys_with_other_exponents', int(e != 65537))
     croca.Check([key])
     cvar.Check([key])
     ctx.distinct('roca', n)
@@ -282,7 +285,8 @@ def run_denylist(ctx, spec):
         5: {'%s:%s' % (kt, fp), 'RSA-2048:' + '0' * 20, 'garbage'},
     }[kind]
     want = ('%s:%s' % (kt, fp)) in deny
-    key = gen.rsa_key(n, pad=rng.choice([0, 2]))
+    key = gen.rsa_key(n, rng.choice([65537, 3, 2 ** 32 + 1]),
+                      pad=rng.choice([0, 2]))
     rs.CheckOpensslDenylist(Custom(deny=deny)).Check([key])
     ctx.distinct('deny', n, kind)
     _expect(ctx, 'CheckOpensslDenylist', key, want,
@@ -315,7 +319,7 @@ def run_keypair(ctx, spec):
       seed = bytes([b0] + [0] * 31)
       p, q = keypair_generator.Generator(seed).generate_key(bits)
       n = p * q
-      key = gen.rsa_key(n)
+      key = gen.rsa_key(n, [65537, 3, 65539][b0 % 3], pad=b0 % 2)
       chk.Check([key])
       ctx.distinct('keypair', b0, bits)
       ctx.count('covered_seeds_regenerated')
